@@ -108,4 +108,55 @@ theorem display_differs_without_hyp :
     C10.displayWidth m (fun _ => 1) (fun _ => true) (enc ['A']) = 1 ∧ C11.measWidth W ['A'] = 2 := by
   decide
 
+/-! ### `Widths` decoded from a C10 table: the translation is realisable for every `(m, wc)` -/
+
+theorem toNat_ofNat_valid (n : Nat) (h : n.isValidChar) : (Char.ofNat n).toNat = n := by
+  simp [Char.ofNat, h, Char.ofNatAux, Char.toNat]
+
+/-- C11's runtime classes decoded from C10's `(table, wcwidth)` -/
+def ofTable (m : C10.Table) (wc : Nat → Int) (dm : Bool) : C11.Widths :=
+  { rw := fun c => (wc c.toNat).toNat,
+    disp := fun c => match C10.lookup m [c.toNat] with
+      | some v => v.map Char.ofNat
+      | none => [c],
+    dm := dm }
+
+/-- every display string consists of code points that are Lean `Char`s (no lone surrogates) -/
+def valuesValid (m : C10.Table) : Bool := m.all fun kv => kv.2.all fun n => decide n.isValidChar
+
+theorem lookup_mem (m : C10.Table) (s v : List Nat) (h : C10.lookup m s = some v) : (s, v) ∈ m := by
+  induction m with
+  | nil => simp [C10.lookup] at h
+  | cons kv rest ih =>
+    obtain ⟨k, w⟩ := kv
+    simp only [C10.lookup] at h
+    by_cases hk : k = s
+    · simp [hk] at h; simp [hk, h]
+    · simp [hk] at h; simp [ih h]
+
+theorem WRel_ofTable (m : C10.Table) (wc : Nat → Int) (dm : Bool) (hv : valuesValid m = true) :
+    WRel (ofTable m wc dm) m wc := by
+  constructor
+  · intro c; rfl
+  · intro c
+    simp only [ofTable]
+    cases hl : C10.lookup m [c.toNat] with
+    | none => simp
+    | some v =>
+      have hm := lookup_mem m _ _ hl
+      have : ∀ n ∈ v, n.isValidChar := by
+        intro n hn
+        have := List.all_eq_true.mp hv _ hm
+        simpa using List.all_eq_true.mp this n hn
+      simp only [Option.getD_some, enc, List.map_map]
+      conv => rhs; rw [← List.map_id v]
+      apply List.map_congr_left
+      intro n hn; simp [toNat_ofNat_valid n (this n hn)]
+
+
+/-- `WRel` is satisfiable on a non-trivial table: "^A" for U+0001, a combining and a wide character -/
+example : WRel (ofTable [([1], [94, 65])] (fun n => if n = 768 then 0 else if n = 19968 then 2 else 1) true)
+    [([1], [94, 65])] (fun n => if n = 768 then 0 else if n = 19968 then 2 else 1) :=
+  WRel_ofTable _ _ _ (by decide)
+
 end Ptk.AgreeOut.Char
